@@ -28,6 +28,27 @@ type rxAction struct {
 	ID   string `json:"id,omitempty"`
 	Via  string `json:"via,omitempty"` // SendMessage | SendMessageElement
 	Fail bool   `json:"fail,omitempty"`
+	// Typ: the message type of the tracked message (start) / of the message that
+	// carries the receipt (peer): normal chat groupchat headline error, "none"
+	// (no type attribute), "weird" (an unknown type); "" is chat
+	Typ string `json:"typ,omitempty"`
+}
+
+var rxTypes = []string{"normal", "chat", "groupchat", "headline", "error", "none", "weird"}
+
+func rxTypeAttr(t string) string {
+	switch t {
+	case "":
+		return "chat"
+	case "none":
+		return ""
+	}
+	return t
+}
+
+// rxTypeCode: the number of the type in C06/ModelLife.v (norm_mtype maps 5.. to normal)
+func rxTypeCode(t string) int {
+	return map[string]int{"normal": 0, "chat": 1, "": 1, "groupchat": 2, "headline": 3, "error": 4, "none": 5, "weird": 6}[t]
 }
 
 type rxCase struct {
@@ -37,6 +58,7 @@ type rxCase struct {
 
 type rxSender struct {
 	id, via string
+	typ     string
 	fail    bool
 	a       *actor
 	pos     string // registered senderr waitbefore inselect ctxdone ret
@@ -57,6 +79,7 @@ type rxRun struct {
 	arrivals  []string
 	unhandled []string
 	notified  map[int]int // arrival -> sender
+	rlabels   []string    // the same schedule with the message type of every receipt (routed system)
 }
 
 func newRxRun() (*rxRun, error) {
@@ -68,6 +91,13 @@ func newRxRun() (*rxRun, error) {
 		return nil, err
 	}
 	return x, nil
+}
+
+// label records a step for the receipts system and, wrapped, for the routed system.
+func (x *rxRun) label(format string, args ...interface{}) {
+	l := fmt.Sprintf(format, args...)
+	x.labels = append(x.labels, l)
+	x.rlabels = append(x.rlabels, "RL ("+l+")")
 }
 
 func (x *rxRun) teardown() {
@@ -177,13 +207,13 @@ func (x *rxRun) do(a rxAction) {
 	switch a.Op {
 	case "start":
 		i := len(x.senders)
-		s := &rxSender{id: a.ID, via: a.Via, fail: a.Fail, a: newActor(fmt.Sprintf("sender%d", i))}
+		s := &rxSender{id: a.ID, via: a.Via, fail: a.Fail, typ: a.Typ, a: newActor(fmt.Sprintf("sender%d", i))}
 		var ctx context.Context
 		ctx, s.cancel = context.WithCancel(context.Background())
 		x.senders = append(x.senders, s)
 		go func() {
 			x.g.bind(s.a)
-			msg := stanza.Message{XMLName: xml.Name{Space: stanza.NSClient, Local: "message"}, ID: s.id, To: serverJID, Type: stanza.ChatMessage}
+			msg := stanza.Message{XMLName: xml.Name{Space: stanza.NSClient, Local: "message"}, ID: s.id, To: serverJID, Type: stanza.MessageType(rxTypeAttr(s.typ))}
 			var payload xml.TokenReader
 			if s.fail {
 				payload = failingReader{}
@@ -247,7 +277,12 @@ func (x *rxRun) do(a rxAction) {
 		n := len(x.arrivals)
 		x.arrivals = append(x.arrivals, a.ID)
 		before := len(x.unhandled)
-		raw := fmt.Sprintf(`<message from="example.net" id="r%d" type="chat"><received xmlns="urn:xmpp:receipts" id="%s"/></message>`, n, a.ID)
+		ta := ""
+		if t := rxTypeAttr(a.Typ); t != "" {
+			ta = ` type="` + t + `"`
+		}
+		raw := fmt.Sprintf(`<message from="example.net" id="r%d"%s><received xmlns="urn:xmpp:receipts" id="%s"/></message>`, n, ta, a.ID)
+		x.classes["type-"+a.Typ] = true
 		if err := x.p.Send([]byte(raw)); err != nil {
 			x.fail("C06/receipts/handler-stall:not-reading", "the serve loop does not read: "+err.Error())
 			return
@@ -257,6 +292,7 @@ func (x *rxRun) do(a rxAction) {
 			return
 		}
 		x.label("XArrive %d%%N", x.idNum(a.ID))
+		x.rlabels[len(x.rlabels)-1] = fmt.Sprintf("RArrive %d%%N %d%%N", rxTypeCode(a.Typ), x.idNum(a.ID))
 		x.label("XLookup")
 		i, ok := x.table[a.ID]
 		if e == "receipts.notify.before" {
@@ -278,7 +314,11 @@ func (x *rxRun) do(a rxAction) {
 			x.notified[n] = i
 		} else {
 			if ok {
-				x.fail("C06/receipts/receipt-lost", "a sender waits for this id but the receipt was reported unhandled")
+				what := "a sender waits for this id but the receipt was reported unhandled"
+				if len(x.unhandled) == before {
+					what = fmt.Sprintf("a sender waits for this id, but the receipt (message type %q) reached neither the receipts handler nor Unhandled: the handler is not registered for that type; the sender will end with its context error although its receipt came first", rxTypeAttr(a.Typ))
+				}
+				x.fail("C06/receipts/receipt-lost", what)
 				return
 			}
 			if len(x.unhandled) != before+1 || x.unhandled[before] != a.ID {
@@ -427,6 +467,8 @@ func (x *rxRun) coqCase(o rxObs) string {
 
 func (x *runner) rxEmit(run *rxRun, acts []rxAction, note string) {
 	o := run.observe()
+	x.rxr.Add(fmt.Sprintf("mkrxrcase [%s] [%s] %d%%nat", strings.Join(run.rlabels, ";"), strings.Join(o.Codes, ";"), o.Unhandled),
+		map[string]interface{}{"case": rxCase{Mode: "receipts", Actions: append([]rxAction(nil), acts...)}, "observed": o})
 	x.rx.Add(run.coqCase(o), map[string]interface{}{"case": rxCase{Mode: "receipts", Actions: append([]rxAction(nil), acts...)}, "observed": o, "labels": run.labels, "note": note})
 }
 
@@ -522,9 +564,15 @@ func (x *runner) rxWalk(r *hx.Rand, maxSenders, steps int) {
 			}
 			a.Via = []string{"SendMessage", "SendMessageElement"}[r.Intn(2)]
 			a.Fail = r.Chance(3, 20)
+			a.Typ = rxTypes[r.Intn(len(rxTypes))]
 		case "peer":
+			a.Typ = rxTypes[r.Intn(len(rxTypes))]
 			if len(run.senders) > 0 && r.Chance(4, 5) {
-				a.ID = run.senders[r.Intn(len(run.senders))].id
+				sd := run.senders[r.Intn(len(run.senders))]
+				a.ID = sd.id
+				if !r.Chance(1, 5) {
+					a.Typ = sd.typ
+				}
 			} else {
 				a.ID = []string{"zz", "a", "b"}[r.Intn(3)]
 			}
@@ -579,6 +627,18 @@ func (x *runner) rxConcurrentFirstUse() {
 			return
 		}
 	}
+}
+
+// rxTypeCorpus: for every message type, the receipt arrives after the sender
+// reached its select, and before it has even sent.
+func rxTypeCorpus() [][]rxAction {
+	var out [][]rxAction
+	for _, t := range rxTypes {
+		out = append(out,
+			[]rxAction{{Op: "start", ID: "m1", Via: "SendMessageElement", Typ: t}, {Op: "go"}, {Op: "go"}, {Op: "peer", ID: "m1", Typ: t}, {Op: "serve"}},
+			[]rxAction{{Op: "start", ID: "m1", Via: "SendMessage", Typ: t}, {Op: "peer", ID: "m1", Typ: t}, {Op: "serve"}, {Op: "go"}, {Op: "go"}})
+	}
+	return out
 }
 
 var rxCorpus = [][]rxAction{
